@@ -220,6 +220,19 @@ Section Generic.
   Definition rayleigh_of (n : nat) (A v : arr T) : T :=
     ndiv (rc_entry n (atranspose v) (amul A v)) (rc_entry n (atranspose v) v).
 
+  Lemma rayleigh_quotient_eq n A v : 1 <= n -> ah A = n -> aw A = n -> shaped n 1 v ->
+    rayleigh_quotient A v = Ok (rayleigh_of n A v).
+  Proof.
+    intros Hn HA1 HA2 Hv. unfold rayleigh_quotient, rayleigh_of.
+    assert (Ht : shaped 1 n (atranspose v)).
+    { destruct Hv as [H1 [H2 _]]. apply atranspose_shaped; assumption. }
+    destruct (amul_mat_vec n A v Hn HA1 HA2 Hv) as [Hz _].
+    destruct (amul_row_col n _ _ Hn Ht Hz) as [Hnum Hnumv].
+    destruct (amul_row_col n _ _ Hn Ht Hv) as [Hden Hdenv].
+    rewrite (as_scalar_ok _ Hnum), (as_scalar_ok _ Hden). cbn [bind].
+    rewrite Hnumv, Hdenv. reflexivity.
+  Qed.
+
   Lemma pm_step_eq n A ev x : 1 <= n -> ah A = n -> aw A = n -> shaped n 1 x ->
     let nx := step_vec A x in
     let next := rayleigh_of n A nx in
@@ -231,24 +244,24 @@ Section Generic.
     { unfold step_vec. destruct Hy as [Hy1 [Hy2 _]]. apply adivs_shaped; assumption. }
     split; [|exact Hnx].
     unfold pm_step. rewrite (scaling_component_ok n _ Hn Hy). cbn [bind].
-    fold (step_vec A x). set (nx := step_vec A x) in *.
-    assert (Ht : shaped 1 n (atranspose nx)).
-    { destruct Hnx as [H1 [H2 _]]. apply atranspose_shaped; assumption. }
-    destruct (amul_mat_vec n A nx Hn HA1 HA2 Hnx) as [Hz _].
-    destruct (amul_row_col n _ _ Hn Ht Hz) as [Hnum Hnumv].
-    destruct (amul_row_col n _ _ Hn Ht Hnx) as [Hden Hdenv].
-    rewrite (as_scalar_ok _ Hnum), (as_scalar_ok _ Hden). cbn [bind].
-    rewrite Hnumv, Hdenv. reflexivity.
+    fold (step_vec A x). rewrite (rayleigh_quotient_eq n A _ Hn HA1 HA2 Hnx). reflexivity.
   Qed.
 
+  (* the first normalised vector: A * ones divided by its scaling component *)
+  Definition init_vec (n : nat) (A : arr T) : arr T := step_vec A (afull n1 n 1).
+
   Lemma pm_init_eq n A : 1 <= n -> ah A = n -> aw A = n ->
-    let y := amul A (afull n1 n 1) in
-    pm_init A = Ok (scale_of y, adivs y (scale_of y)) /\ shaped n 1 (adivs y (scale_of y)).
+    let x0 := init_vec n A in
+    pm_init A = Ok (rayleigh_of n A x0, x0) /\ shaped n 1 x0.
   Proof.
     intros Hn HA1 HA2. cbv zeta.
     destruct (amul_mat_vec n A (afull n1 n 1) Hn HA1 HA2 (afull_shaped n1 n 1)) as [Hy _].
+    assert (Hx0 : shaped n 1 (init_vec n A)).
+    { unfold init_vec, step_vec. destruct Hy as [H1 [H2 _]]. apply adivs_shaped; assumption. }
+    split; [|exact Hx0].
     unfold pm_init. rewrite HA1, (scaling_component_ok n _ Hn Hy). cbn [bind].
-    split; [reflexivity|]. destruct Hy as [H1 [H2 _]]. apply adivs_shaped; assumption.
+    fold (step_vec A (afull n1 n 1)). fold (init_vec n A).
+    rewrite (rayleigh_quotient_eq n A _ Hn HA1 HA2 Hx0). reflexivity.
   Qed.
 
   (* ---- the loop ------------------------------------------------------------ *)
@@ -341,9 +354,9 @@ Section Generic.
   (* ---- the whole function ---------------------------------------------------- *)
   Lemma pmf_square n (rows : list (list T)) es fuel : 1 <= n -> rect n n rows ->
     let A := mk_arr n n (concat rows) in
-    let y := amul A (afull n1 n 1) in
-    power_method_fuel fuel rows es = pm_loop fuel A es (scale_of y) (adivs y (scale_of y)) 0%N
-    /\ pm_state A 0 = Ok (scale_of y, adivs y (scale_of y)) /\ shaped n 1 (adivs y (scale_of y)).
+    let x0 := init_vec n A in
+    power_method_fuel fuel rows es = pm_loop fuel A es (rayleigh_of n A x0) x0 0%N
+    /\ pm_state A 0 = Ok (rayleigh_of n A x0, x0) /\ shaped n 1 x0.
   Proof.
     intros Hn Hr. cbv zeta. unfold power_method_fuel. rewrite (try_from_rect n n rows Hr Hn).
     cbn [bind ah aw]. rewrite Nat.eqb_refl. cbn [negb orb].
@@ -700,8 +713,9 @@ Lemma c13_exit_R : forall (rows : list (list R)) (es lam : R) (v : arr R),
   power_method rows es = Ok (lam, v) ->
   exists (A : arr R) (k : nat) (prev : R) (x : arr R) (ea : R),
     try_from rows = Ok A /\ (N.of_nat k < MAX_ITERATIONS)%N /\
-    (exists s0 x0, pm_state A 0 = Ok (s0, x0) /\
-                   scaling_component (amul A (afull 1 (ah A) 1)) = Ok s0) /\
+    (exists x0 s0, pm_state A 0 = Ok (rayleigh (ah A) A x0, x0) /\
+       scaling_component (amul A (afull 1 (ah A) 1)) = Ok s0 /\
+       forall i, (i < ah A)%nat -> aget x0 i 0 = aget (amul A (afull 1 (ah A) 1)) i 0 / s0) /\
     pm_state A k = Ok (prev, x) /\
     pm_step A prev x = Ok (lam, v, ea) /\
     ea = Rabs ((lam - prev) / lam) /\ ea < es /\
@@ -717,10 +731,13 @@ Proof.
   cbn [nltb RNum] in Hlt. apply Rltb_true in Hlt.
   exists A, k, prev, xp, ea.
   split; [exact Htf|]. split; [exact Hk|]. split.
-  { destruct (pm_init_eq n A Hn HA1 HA2) as [Ei _]. cbv zeta in Ei.
-    eexists _, _. split; [exact Ei|]. rewrite HA1.
-    apply (scaling_component_ok n); [exact Hn|].
-    apply (amul_mat_vec n A _ Hn HA1 HA2 (afull_shaped _ n 1%nat)). }
+  { destruct (pm_init_eq n A Hn HA1 HA2) as [Ei Hx0]. cbv zeta in Ei, Hx0.
+    destruct (step_vec_R n A (afull 1 n 1) Hn HA1 HA2 (afull_shaped _ n 1%nat))
+      as [_ [_ [Hsc [_ [_ [_ [Hval _]]]]]]]. cbv zeta in Hsc, Hval.
+    exists (init_vec n A), (scale_of (amul A (afull 1 n 1))). rewrite HA1.
+    split; [|split; [exact Hsc|exact Hval]].
+    change (pm_state A 0) with (pm_init A). rewrite Ei.
+    rewrite (rayleigh_of_R n A _ Hn HA1 HA2 Hx0). reflexivity. }
   split; [exact Hst|]. split; [exact Hstep|]. split; [symmetry; exact Eea|]. split; [exact Hlt|].
   intro Hnz. rewrite <- Eea in Hlt. unfold Rdiv in Hlt. rewrite Rabs_mult, Rabs_inv in Hlt.
   assert (Hpos : 0 < Rabs lam) by (apply Rabs_pos_lt; exact Hnz).
@@ -739,14 +756,15 @@ Proof.
 Qed.
 
 Ltac crunch_arr :=
-  repeat (unfold adivs, tabulate, aget, amul, adot, atranspose, is1x1, as_scalar_unchecked;
+  repeat (unfold rayleigh_quotient, adivs, tabulate, aget, amul, adot, atranspose, is1x1, as_scalar_unchecked;
           cbn -[Rmult Rdiv Rltb Rplus Rminus Rabs]).
 
 Lemma pm_init_1x1 (a : R) : a <> 0 -> pm_init (mk_arr 1 1 [a]) = Ok (a, mk_arr 1 1 [1]).
 Proof.
   intros Ha. unfold pm_init, scaling_component. crunch_arr.
   replace (a * 1) with a by ring.
-  destruct (Rltb 0 a); crunch_arr; replace (a / a) with 1 by (field; exact Ha); reflexivity.
+  destruct (Rltb 0 a); crunch_arr; replace (a / a) with 1 by (field; exact Ha); crunch_arr;
+    replace (1 * (a * 1) / (1 * 1)) with a by field; reflexivity.
 Qed.
 
 Lemma pm_step_1x1 (a : R) : a <> 0 ->
